@@ -3,6 +3,11 @@
 //	vcheck run <property> [--tier quick|thorough]
 //	vcheck replay <property> <path>
 //	vcheck gen <profile> <n> <dir>     (debugging aid: materialise scenarios)
+//
+// Type aliases stay transparent in the go/types views of the harness (as they are for the tool,
+// whose go.mod predates materialised alias nodes).
+//
+//go:debug gotypesalias=0
 package main
 
 import (
